@@ -63,6 +63,192 @@ type PN struct {
 	Val   int
 }
 
+// IP: a node with INTERIOR pointers (into its own fields, into an array field, into a
+// slice's backing array, to a slice header field).  Such values are OUTSIDE the Coq heap
+// model (pointers are to whole allocated objects there); they are run against the
+// implementation only, as an exploration with direct oracles (no model comparison).
+type IP struct {
+	A    int
+	B    [3]int
+	S    []int
+	Sub  struct{ X, Y int }
+	PA   *int   // &A (own or another node's)
+	PB   *int   // &B[i]
+	PS   *int   // &S[i]
+	PX   *int   // &Sub.Y
+	PH   *[]int // &S (the slice header field)
+	Any  interface{}
+	Next *IP
+}
+
+// IPCfg wraps IP nodes behind a slice so that dials.Config accepts the type.
+type IPCfg struct {
+	Nodes []*IP
+	First interface{}
+}
+
+func buildIP(r *coqfmt.Rng, n int) *IPCfg {
+	nodes := make([]*IP, n)
+	for i := range nodes {
+		nodes[i] = &IP{A: i, B: [3]int{i, i + 1, i + 2}, S: make([]int, 1+r.Intn(3), 4)}
+		nodes[i].Sub.Y = 10 + i
+	}
+	for _, nd := range nodes {
+		t := nodes[r.Intn(n)]
+		if r.Chance(2, 3) {
+			nd.PA = &t.A
+		}
+		if r.Chance(2, 3) {
+			nd.PB = &t.B[r.Intn(3)]
+		}
+		if r.Chance(2, 3) {
+			nd.PS = &t.S[r.Intn(len(t.S))]
+		}
+		if r.Chance(1, 2) {
+			nd.PX = &t.Sub.Y
+		}
+		if r.Chance(1, 2) {
+			nd.PH = &t.S
+		}
+		switch r.Intn(4) {
+		case 0:
+			nd.Any = &t.B[0]
+		case 1:
+			nd.Any = &t.Sub
+		case 2:
+			nd.Any = t
+		}
+	}
+	cfg := &IPCfg{Nodes: nodes}
+	if r.Chance(1, 2) {
+		cfg.First = &nodes[0].A
+	}
+	return cfg
+}
+
+type memRange struct{ lo, hi uintptr }
+
+// memRanges collects the memory of every pointee, map and slice backing array below v
+// (exported fields), as address ranges.
+func memRanges(v reflect.Value, seen map[[2]uintptr]bool, out *[]memRange) {
+	switch v.Kind() {
+	case reflect.Ptr:
+		if v.IsNil() {
+			return
+		}
+		k := [2]uintptr{v.Pointer(), v.Type().Elem().Size()}
+		if seen[k] {
+			return
+		}
+		seen[k] = true
+		if sz := v.Type().Elem().Size(); sz > 0 {
+			*out = append(*out, memRange{v.Pointer(), v.Pointer() + sz})
+		}
+		memRanges(v.Elem(), seen, out)
+	case reflect.Map:
+		if v.IsNil() {
+			return
+		}
+		k := [2]uintptr{v.Pointer(), 0}
+		if seen[k] {
+			return
+		}
+		seen[k] = true
+		*out = append(*out, memRange{v.Pointer(), v.Pointer() + 1})
+		it := v.MapRange()
+		for it.Next() {
+			memRanges(it.Value(), seen, out)
+		}
+	case reflect.Slice:
+		if v.IsNil() || v.Cap() == 0 {
+			return
+		}
+		es := v.Type().Elem().Size()
+		k := [2]uintptr{v.Pointer(), uintptr(v.Cap())*es + 1}
+		if seen[k] {
+			return
+		}
+		seen[k] = true
+		*out = append(*out, memRange{v.Pointer(), v.Pointer() + uintptr(v.Cap())*es})
+		f := v.Slice(0, v.Cap())
+		for i := 0; i < f.Len(); i++ {
+			memRanges(f.Index(i), seen, out)
+		}
+	case reflect.Interface:
+		if !v.IsNil() {
+			memRanges(v.Elem(), seen, out)
+		}
+	case reflect.Struct:
+		for i := 0; i < v.NumField(); i++ {
+			if v.Type().Field(i).PkgPath == "" {
+				memRanges(v.Field(i), seen, out)
+			}
+		}
+	case reflect.Array:
+		for i := 0; i < v.Len(); i++ {
+			memRanges(v.Index(i), seen, out)
+		}
+	}
+}
+
+func rangesOverlap(a, b []memRange) bool {
+	for _, x := range a {
+		for _, y := range b {
+			if x.lo < y.hi && y.lo < x.hi {
+				return true
+			}
+		}
+	}
+	return false
+}
+
+// exploreInterior runs one interior-pointer case against the implementation alone.
+func exploreInterior(in input) (direct, tags []string) {
+	cfg := buildIP(coqfmt.NewRng(in.State), in.N)
+	tags = []string{"interior-exploration", fmt.Sprintf("mode-%d", in.Mode)}
+	var res reflect.Value
+	if in.Mode == 0 {
+		res = dials.VerifDeepCopy(reflect.ValueOf(cfg))
+	} else {
+		d, err := dials.Config(context.Background(), cfg)
+		if err != nil {
+			return []string{"exploration (interior pointers): Config returned an error: " + err.Error()}, tags
+		}
+		res = reflect.ValueOf(d.View())
+	}
+	if !reflect.DeepEqual(cfg, res.Interface()) {
+		direct = append(direct, "exploration (interior pointers): reflect.DeepEqual(input, copy) = false")
+	}
+	var rin, rout []memRange
+	memRanges(reflect.ValueOf(cfg), map[[2]uintptr]bool{}, &rin)
+	memRanges(res, map[[2]uintptr]bool{}, &rout)
+	if rangesOverlap(rin, rout) {
+		direct = append(direct, "exploration (interior pointers): the copy shares memory with the input")
+	}
+	// informational: is the interior aliasing kept? (depends on the visiting order; not an oracle)
+	o := res.Interface().(*IPCfg)
+	kept, lost := 0, 0
+	for i, nd := range o.Nodes {
+		src := cfg.Nodes[i]
+		for j, t := range o.Nodes {
+			if src.PA == &cfg.Nodes[j].A {
+				if nd.PA == &t.A {
+					kept++
+				} else {
+					lost++
+				}
+			}
+		}
+	}
+	if kept > 0 {
+		tags = append(tags, "interior-alias-kept")
+	}
+	if lost > 0 {
+		tags = append(tags, "interior-alias-split")
+	}
+	return direct, tags
+}
+
 type input struct {
 	K     string `json:"k"`
 	State uint64 `json:"state"`
@@ -484,6 +670,7 @@ func typeGraph(root reflect.Type) (string, int) {
 // ---- one case, inside the child ----
 
 type announce struct {
+	Explore    bool     `json:"explore"`
 	Heap       []string `json:"heap"`
 	NIn        int      `json:"nin"`
 	Root       string   `json:"root"`
@@ -570,6 +757,19 @@ func child() {
 		var in input
 		if e := json.Unmarshal([]byte(line), &in); e != nil {
 			panic(e)
+		}
+		if in.K == "interior" {
+			b, _ := json.Marshal(announce{Explore: true})
+			fmt.Fprintf(out, "I %s\n", b)
+			out.Flush()
+			var oc outcome
+			var tg []string
+			oc.Direct, tg = exploreInterior(in)
+			oc.Heap = tg // (tags travel in the heap slot of the outcome for exploration cases)
+			b, _ = json.Marshal(oc)
+			fmt.Fprintf(out, "O %s\n", b)
+			out.Flush()
+			continue
 		}
 		root, nodeType := buildRoot(in)
 		before := graphwalk.Canon(root)
@@ -714,6 +914,23 @@ func run(raw json.RawMessage) driver.Result {
 	if err := json.Unmarshal([]byte(l[2:]), &a); err != nil {
 		panic(err)
 	}
+	if a.Explore {
+		l, ok = cur.read(60 * time.Second)
+		res := driver.Result{Coq: "Explore", Kind: "interior-exploration"}
+		if !ok || !strings.HasPrefix(l, "O ") {
+			cur.kill()
+			cur = nil
+			res.Direct = []string{"exploration (interior pointers): the implementation did not terminate (child process died or hung)"}
+			res.Tags = []string{"interior-exploration", "impl-crashed"}
+			return res
+		}
+		var oc outcome
+		if err := json.Unmarshal([]byte(l[2:]), &oc); err != nil {
+			panic(err)
+		}
+		res.Direct, res.Tags = oc.Direct, oc.Heap
+		return res
+	}
 	heap := a.Heap
 	impl := "None"
 	var direct []string
@@ -754,6 +971,9 @@ func genInputs(r *coqfmt.Rng, n int, tier string) []json.RawMessage {
 	// Config on a type that reaches itself through pointer-to-struct fields (finding 15): a few per run
 	for i := 0; i < 3; i++ {
 		add(input{K: "gen", State: r.U64(), Fam: "PN", N: 1 + r.Intn(3), PNil: 8 * (i % 2), Mode: 1})
+	}
+	for i := 0; i < n/25; i++ {
+		add(input{K: "interior", State: r.U64(), Fam: "IP", N: 1 + r.Intn(4), Mode: r.Intn(2)})
 	}
 	for i := 0; i < n; i++ {
 		fam := []string{"SN", "IN", "IN", "PN"}[r.Intn(4)]
